@@ -177,6 +177,30 @@ def string_summaries(I, summ):
         return None
     summ['write_str'] = write_str
 
+    def writer_generic(I, st, args, inst):
+        """any function of the library that is handed a word / separator token: it appends that string to the phrase buffer among its arguments"""
+        tag = [a for a in args if isinstance(a, Tag)][0]
+        ptrs = [a for a in args if isinstance(a, Ptr)]
+        st.trace.append(('write_str', repr(ptrs[0]) if ptrs else '?', tag, inst.loc))
+        for p_ in ptrs:
+            if p_.obj in st.mem.objs and p_.obj.startswith('a:'):
+                cur = None
+                if len(st.mem.objs[p_.obj]) == 8:          # a cursor variable (char**): advance it by an unknown amount
+                    cur = I.load(st, p_, 8, inst, as_ptr=True)
+                    if isinstance(cur, Ptr):
+                        if cur.coff() is not None: st.forced[('write_str-base', cur.obj)] = cur.coff()
+                        I.store(st, p_, Ptr(cur.obj, BV([T(0)] * 64)), 8, inst)
+                        if cur.obj in st.mem.objs: _smear(I, st, Ptr(cur.obj, st.forced.get(('write_str-base', cur.obj), 0)))
+                else:
+                    _smear(I, st, Ptr(p_.obj, p_.coff() or 0))
+        if inst.d['bits']:
+            I._npos = getattr(I, '_npos', 0) + 1
+            r = I.V.bv('pos%d' % I._npos, inst.d['bits'])
+            for b in r.bits: I.nofork |= b[0]
+            return r
+        return None
+    I.tag_consumer = writer_generic
+
     def str_split(I, st, args, inst):
         st.trace.append(('str_split', repr(args[0]), repr(args[1]), inst.loc))
         p = args[1]
